@@ -31,6 +31,7 @@
 #include <bee2/crypto/dstu.h>
 #include <bee2/crypto/pfok.h>
 #include <bee2/crypto/bels.h>
+#include <bee2/crypto/belt.h>
 
 static int THOROUGH = 0;
 
@@ -262,73 +263,88 @@ static int isPrimeN(const word* a, size_t n)
 {
 	void* st = xalloc(priIsPrime_deep(n)); int r = priIsPrime(a, n, st); free(st); return r;
 }
-/* window [base, base + cnt): priIsPrimeW, priIsPrime (n = 1 and, for 32-bit words, the natural length), next primes */
-static void primeWindow(const char* cls, unsigned long long base, size_t cnt)
+/* window [base, base + cnt): priIsPrimeW, priIsPrime (nn words), priNextPrimeW, priNextPrime (nn words, bc base primes)
+   on every number of the window; next primes as offsets from base (-1: none).  margin tells the specification how far
+   beyond the window its table of primes has to reach (larger than any prime gap in the range). */
+static void window(const char* cls, unsigned long long base, size_t cnt, size_t margin, size_t nn, size_t bc)
 {
-	size_t i;
-	jBegin(); jStr("op", "primeWin"); jStr("f", "priIsPrimeW"); jStr("cls", cls);
+	size_t i; const size_t iter = 20;
+	long long* nw = (long long*)xalloc(cnt * sizeof(long long)); long long* nN = (long long*)xalloc(cnt * sizeof(long long));
+	jBegin(); jStr("op", "win"); jStr("cls", cls);
 	{ octet b[8]; size_t j; for (j = 0; j < 8; ++j) b[j] = (octet)(base >> (8 * j)); jOct("a", b, 8); }
-	jResBegin("res");
+	jInt("margin", margin == (size_t)-1 ? 0 : (long long)margin); jInt("nn", (long long)nn); jInt("bc", (long long)bc); jInt("iter", (long long)iter);
+	jResBegin("resW");
 	for (i = 0; i < cnt; ++i) jResPut(i, isPrimeW((word)(base + i)));
-	jResEnd(); jEnd();
-	jBegin(); jStr("op", "primeWin"); jStr("f", "priIsPrime"); jStr("cls", cls);
-	{ octet b[8]; size_t j; for (j = 0; j < 8; ++j) b[j] = (octet)(base >> (8 * j)); jOct("a", b, 8); }
-	jResBegin("res");
+	jResEnd();
+	jResBegin("resN");
 	for (i = 0; i < cnt; ++i)
 	{
-		word w[2]; unsigned long long v = base + i;
-		w[0] = (word)v; w[1] = (B_PER_W < 64) ? (word)(v >> (B_PER_W < 64 ? B_PER_W : 0)) : 0;
-		/* alternate representations: natural length / one leading zero word */
-		jResPut(i, isPrimeN(w, (i & 1) ? 2 : (w[1] ? 2 : 1)));
+		word* w = (word*)xalloc(O_OF_W(nn)); memset(w, 0, O_OF_W(nn)); w[0] = (word)(base + i);
+		jResPut(i, isPrimeN(w, nn)); free(w);
 	}
-	jResEnd(); jEnd();
-}
-static void nextWindow(const char* cls, unsigned long long base, size_t cnt)
-{
-	size_t i;
-	jBegin(); jStr("op", "nextWin"); jStr("f", "priNextPrimeW"); jStr("cls", cls);
-	{ octet b[8]; size_t j; for (j = 0; j < 8; ++j) b[j] = (octet)(base >> (8 * j)); jOct("a", b, 8); }
-	jSep(); fprintf(vx_out, "\"res\":[");
+	jResEnd();
 	for (i = 0; i < cnt; ++i)
 	{
 		word p[1]; void* st = xalloc(priNextPrimeW_deep()); int r;
 		p[0] = 0; r = priNextPrimeW(p, (word)(base + i), st); free(st);
-		/* result as the offset p - base (or -1) */
-		fprintf(vx_out, i ? ",%lld" : "%lld", r ? (long long)((unsigned long long)p[0] - base) : -1ll);
+		nw[i] = r ? (long long)((unsigned long long)p[0] - base) : -1ll;
 	}
-	fputc(']', vx_out); jEnd();
+	if (margin != (size_t)-1) jIntArr("nextW", nw, cnt);
+	for (i = 0; margin != (size_t)-1 && i < cnt; ++i)
+	{
+		word* a = (word*)xalloc(O_OF_W(nn)); word* p = (word*)xalloc(O_OF_W(nn)); void* st = xalloc(priNextPrime_deep(nn, bc)); int r;
+		memset(a, 0, O_OF_W(nn)); memset(p, 0, O_OF_W(nn)); a[0] = (word)(base + i);
+		r = priNextPrime(p, a, nn, SIZE_MAX, bc, iter, st);
+		nN[i] = r ? (long long)((unsigned long long)p[0] - base) : -1ll;
+		if (r && nn > 1 && p[1]) nN[i] = -2;
+		free(st); free(p); free(a);
+	}
+	if (margin != (size_t)-1) jIntArr("nextN", nN, cnt);
+	jEnd(); free(nw); free(nN);
+}
+/* a few starts in a sparse range: priNextPrimeW / priNextPrime on seeded starts */
+static void nextSeeded(const char* cls, unsigned long long a0, size_t nn, size_t bc)
+{
+	word p[1]; void* st = xalloc(priNextPrimeW_deep()); int r; octet b[8]; size_t j;
+	word* a = (word*)xalloc(O_OF_W(nn)); word* q = (word*)xalloc(O_OF_W(nn)); void* st2 = xalloc(priNextPrime_deep(nn, bc));
+	for (j = 0; j < 8; ++j) b[j] = (octet)(a0 >> (8 * j));
+	p[0] = 0; r = priNextPrimeW(p, (word)a0, st); free(st);
+	jBegin(); jStr("op", "nextPrime"); jStr("cls", cls); jStr("f", "priNextPrimeW"); jOct("a", b, 8); jInt("n", 0); putNum("p", p, 1);
+	jInt("found", r); jInt("hang", 0); jEnd();
+	memset(a, 0, O_OF_W(nn)); memset(q, 0, O_OF_W(nn)); a[0] = (word)a0;
+	r = priNextPrime(q, a, nn, SIZE_MAX, bc, 20, st2);
+	jBegin(); jStr("op", "nextPrime"); jStr("cls", cls); jStr("f", "priNextPrime"); jOct("a", b, 8); jInt("n", (long long)nn); jInt("base", (long long)bc);
+	putNum("p", q, nn); jInt("found", r); jInt("hang", 0); jEnd();
+	free(st2); free(q); free(a);
 }
 static void recPri(void)
 {
 	size_t k; unsigned long long b;
-	/* exhaustive [0, 2^16) */
-	for (b = 0; b < 65536; b += 256) primeWindow("lo16", b, 256);
-	for (b = 0; b < 65536; b += 256) nextWindow("lo16", b, 256);
+	static const size_t BC[4] = { 0, 10, 100, 1024 };
+	/* exhaustive [0, 2^16); word counts 1 / 2 and factor-base sizes cycle over the lines */
+	for (b = 0, k = 0; b < 65536; b += 256, ++k) window("lo16", b, 256, 100, 1 + (k & 1), BC[(k >> 1) & 3]);
 #if (B_PER_W >= 64)
-	/* around 2^32 */
 	{
-		unsigned long long half = THOROUGH ? 8192 : 512;
-		for (b = 4294967296ull - half; b < 4294967296ull + half; b += 256) primeWindow("at32", b, 256);
-		for (b = 4294967296ull - half; b < 4294967296ull + half; b += 256) nextWindow("at32", b, 256);
-		/* seeded windows in the 33..40-bit and 63-bit ranges (small ones: the oracle needs 12 bases up there) */
+		unsigned long long half = THOROUGH ? 8192 : 256;
+		for (b = 4294967296ull - half; b < 4294967296ull + half; b += 256, ++k) window("at32", b, 256, 400, 1 + (k & 1), BC[(k >> 1) & 3]);
+		/* seeded numbers in the 33..40-bit and 63-bit ranges (the oracle needs up to 12 bases up there) */
 		for (k = 0; k < (THOROUGH ? 8u : 2u); ++k)
 		{
 			b = (1ull << (33 + vxRandN(7))) + (vxRand64() & 0xFFFFFFFFull);
-			primeWindow("seeded40", b, 64); nextWindow("seeded40", b, 16);
+			window("seeded40", b, 32, (size_t)-1, 1 + (k & 1), BC[k & 3]); nextSeeded("seeded40", b + 1, 1 + (k & 1), BC[(k + 1) & 3]);
 		}
 		for (k = 0; k < (THOROUGH ? 6u : 1u); ++k)
 		{
 			b = (1ull << 62) + (vxRand64() >> 3);
-			primeWindow("seeded63", b, 24); nextWindow("seeded63", b, 4);
+			window("seeded63", b, 16, (size_t)-1, 1, BC[k & 3]); nextSeeded("seeded63", b + 1, 1 + (k & 1), BC[(k + 2) & 3]);
 		}
-		/* the top of the word: next prime must not wrap */
-		primeWindow("top64", 18446744073709551615ull - 63, 64); nextWindow("top64", 18446744073709551615ull - 63, 64);
+		/* the top of the word: the search must stop at the bit length, not wrap */
+		window("top64", 18446744073709551615ull - 31, 32, 0, 1, 10);
 	}
 #else
 	{
-		unsigned long long half = THOROUGH ? 8192 : 512;
-		for (b = 4294967296ull - half; b < 4294967296ull; b += 256) primeWindow("at32", b, 256);
-		for (b = 4294967296ull - half; b < 4294967296ull; b += 256) nextWindow("at32", b, 256);
+		unsigned long long half = THOROUGH ? 8192 : 256;
+		for (b = 4294967296ull - half; b < 4294967296ull; b += 256, ++k) window("at32", b, 256, 400, 1 + (k & 1), BC[(k >> 1) & 3]);
 	}
 #endif
 }
@@ -354,7 +370,7 @@ static void recPP(void)
 	/* seeded polynomials of degree 128 / 192 / 256: x^l + m(x) as belsValM sees them, through ppIsIrred and belsValM */
 	for (k = 0; k < 3; ++k)
 	{
-		size_t len = 16 + 8 * k, cnt = THOROUGH ? 400 : 40, j;
+		size_t len = 16 + 8 * k, cnt = THOROUGH ? 160 : 16, j;
 		for (j = 0; j < cnt; ++j)
 		{
 			octet* m = (octet*)xalloc(len); size_t n = W_OF_O(len) + 1; word* a = (word*)xalloc(O_OF_W(n));
@@ -508,6 +524,11 @@ static void doExecLine(vx_cmd* c)
 		loadBign(p, c); no = p->l == 96 ? 24 : p->l / 4; Q = (octet*)xalloc(2 * no); memset(Q, 0, 2 * no);
 		e = strcmp(scheme, "bign") == 0 ? bignPubkeyCalc(Q, p, d) : bign96PubkeyCalc(Q, p, d);
 		jOct("Qx", Q, no); jOct("Qy", Q + no, no); jInt("rc", e); free(Q); free(p); free(d);
+	}
+	else if (strcmp(op, "beltHash") == 0)
+	{
+		/* generator aid (seed search for the "b is a non-residue" class); belt-hash itself is C01's business */
+		size_t len; octet* in = vxHex(c, "in", &len); octet h[32]; beltHash(h, in, len); jOct("out", h, 32); free(in);
 	}
 	else if (strcmp(op, "belsValM") == 0)
 	{
